@@ -2,10 +2,16 @@
 Streams: (a) whole pipeline (cycles method) vs Model/Features.v; (b) the individual functions with all three
 directions on synthetic tables (zero / negative / equal / NaN flank voltages) vs Model/BurstFeat.v; (c) compute_monotonicity
 on hand-made signals (flat, strictly monotone, plateau, zig-zag, wrong-way and two-sample flanks; both centrings) vs
-Model/BurstFeat.v monotonicity_row (runner in Model/TableRuns.v)."""
+Model/BurstFeat.v monotonicity_row (runner in Model/TableRuns.v).
+About a third of the synthetic tables of (b) and (c) carry non-default row labels (a real `iloc` slice or boolean
+selection out of a longer table, labels with gaps, shuffled, strings, repeated: tablelayout.apply_rows) and a share of
+them goes through `compute_burst_features(table, sig)` instead of the individual functions; results are read by
+position.  The same tables are also handed to `compute_burst_features(..., burst_method='amp')` where the reference
+detector accepts the hand-made signal (harness-level comparison of burst_fraction by position)."""
 import math
+import warnings
 import numpy as np
-from harness import coqio, pipeline, tablelayout
+from harness import coqio, pipeline, tablelayout, ref
 from harness.core import exc_kind
 from harness.pipeline import TRUST
 
@@ -26,13 +32,22 @@ RULE = ('(a) compute_features(burst_method="cycles") on generated signals of all
         'flank voltages and tied amplitudes; (c) compute_monotonicity on hand-made signals whose flanks are strictly '
         'monotone, flat, plateau-rich, zig-zag, wrong-way, one-ulp steps or two samples long, both centrings; about 40 % of '
         'the synthetic tables of (b) and (c) are handed over with their columns in another order (sorted by name, '
-        'reversed, shuffled), some with an unrelated extra column; '
+        'reversed, shuffled), some with an unrelated extra column; about 35 % of them carry non-default row labels (cut '
+        'out of a longer table with iloc / a boolean mask and not re-labelled, labels with gaps, shuffled label values, '
+        'string labels, labels repeated as after pd.concat; rows always in cycle order) and results are compared by '
+        'position; about a fifth of the tables of (b) (direction both) and 30 % of (c) are complete shape tables handed '
+        'to compute_burst_features(table, sig) (burst_method cycles; for (c) also amp with fs / f_range in burst_kwargs, '
+        'compared with the neurodsp detector by position where it accepts the signal) instead of the single functions; '
         'non-trivial = >= 3 rows (a, b), a row with monotonicity strictly between 0 and 1 (c)')
 ASSUMPTIONS = ['signals finite', 'sign of zero results not compared (-0 == +0)',
                'where the statement defines nothing, the oracle does not judge and only the model comparison applies: '
                'a table without cycles (the model pins IndexError), amp_consistency of a cycle one of whose involved '
                'min/max ratios is NaN (0/0, NaN or infinite flank voltage), amp_fraction of a table containing a NaN '
-               'amplitude']
+               'amplitude',
+               'row labels are not an input of the model and not part of the statement ("for every cycle table"): a table '
+               'is the sequence of its rows; every result is read by position (`.to_numpy()` of the returned column)',
+               'burst_fraction of compute_burst_features(burst_method="amp") is not a C05 feature: a difference from the '
+               'reference detector there is reported through the model comparison (harness_diff), not by the oracle']
 DIRS = {'both': 'Both', 'next': 'Next', 'last': 'Last'}
 
 
@@ -67,6 +82,19 @@ def cases(rng, tier):
     for c in out:       # column layout of the synthetic tables, drawn last so that the tables are those of earlier runs
         if c['kind'].startswith('synthetic'):
             c['cols'] = tablelayout.gen_layout(rng)
+    for c in out:       # row labels and the entry point, drawn after everything else for the same reason
+        if c['kind'].startswith('synthetic'):
+            c['rowlab'] = tablelayout.gen_rows(rng)
+            nrow = len(c['rows']) if 'rows' in c else len(c['rises'])
+            if c['kind'].startswith('synthetic-mono'):
+                via = rng.random() < 0.3
+            else:
+                via = rng.random() < 0.6 and c['direction'] == 'both' and nrow > 0
+            if via:
+                c['via'] = 'cbf'
+                # how min_n_cycles reaches the amp call (WP17 lesson 2: numpy integer scalars besides Python ints)
+                c['amp_n'] = [rng.choice(['int', 'int8', 'int16', 'int32', 'int64', 'uint8', 'uint16', 'uint32', 'uint64',
+                                          'intp', 'absent']), rng.choice([0, 1, 2, 3])]
     return out
 
 
@@ -131,12 +159,19 @@ def run_impl(c):
     df = pd.DataFrame({'volt_rise': np.array(_uf(c['rises']), dtype=float), 'volt_decay': np.array(_uf(c['decays']), dtype=float),
                        'volt_amp': np.array(_uf(c['amps']), dtype=float), 'period': np.array(c['periods'], dtype=int),
                        ('sample_peak' if c['peak'] else 'sample_trough'): np.arange(n, dtype=int)})
-    if c.get('index') == 'offset':
-        df.index = np.arange(n) + 5
-    elif c.get('index') == 'reversed':
-        df.index = np.arange(n)[::-1]
+    sig = None
+    if c.get('via') == 'cbf':
+        # a complete shape table: cycle i spans samples 4i .. 4i+4 of a zig-zag signal (monotonicity is not judged here)
+        side = 'trough' if c['peak'] else 'peak'
+        df['sample_' + ('peak' if c['peak'] else 'trough')] = 4 * np.arange(n, dtype=int) + 2
+        df['sample_last_' + side] = 4 * np.arange(n, dtype=int)
+        df['sample_next_' + side] = 4 * np.arange(n, dtype=int) + 4
+        sig = np.array([(1.0 if (k // 2) % 2 == (0 if c['peak'] else 1) else -1.0) * (k % 2 + 1) for k in range(4 * n + 1)])
+    df = _labelled(df, c)
     df = tablelayout.apply_layout(df, c.get('cols'))       # columns are addressed by name, wherever they stand
     out = {}
+    if sig is not None:
+        return _run_cbf_funcs(c, df, sig, n)
     try:
         out['af'] = _f([float(x) for x in np.asarray(compute_amp_fraction(df))])
     except Exception as e:
@@ -152,6 +187,101 @@ def run_impl(c):
     return out
 
 
+def _labelled(df, c):
+    """Row labels of the table handed over: the rows stay in cycle order."""
+    if c.get('rowlab'):
+        return tablelayout.apply_rows(df, c['rowlab'])
+    n = len(df)
+    if c.get('index') == 'offset':
+        df.index = np.arange(n) + 5
+    elif c.get('index') == 'reversed':
+        df.index = np.arange(n)[::-1]
+    return df
+
+
+def _column(res, name, n):
+    """A column of the returned table, by position."""
+    a = np.asarray(res[name].to_numpy() if hasattr(res[name], 'to_numpy') else res[name], dtype=float)
+    if a.ndim != 1 or len(a) != n or len(res) != n:
+        raise ValueError('shape')
+    return a
+
+
+def _run_cbf_funcs(c, df, sig, n):
+    from bycycle.features.burst import compute_burst_features
+    snap = df.copy(deep=True)
+    try:
+        res = compute_burst_features(df, sig)
+    except Exception as e:
+        return {'af_err': exc_kind(e), 'ac_err': exc_kind(e), 'pc_err': exc_kind(e)}
+    out = {}
+    for key, name in (('af', 'amp_fraction'), ('ac', 'amp_consistency'), ('pc', 'period_consistency')):
+        try:
+            out[key] = _f([float(x) for x in _column(res, name, n)])
+        except Exception as e:
+            out[key + '_err'] = exc_kind(e)
+    if not (list(df.index) == list(snap.index) and list(df.columns) == list(snap.columns)
+            and all(tablelayout.same_column(df[k], snap[k]) for k in snap.columns)):
+        out['harness_diff'] = 'compute_burst_features changed the table it was given'
+    return out
+
+
+def _amp_count(c):
+    t, v = c.get('amp_n', ['absent', 3])
+    return None if t == 'absent' else int(v) if t == 'int' else getattr(np, t)(v)
+
+
+def _run_cbf_mono(c, df, sig, rows):
+    """The hand-made table completed to a shape table and handed to compute_burst_features, both methods."""
+    from bycycle.features.burst import compute_burst_features
+    la, ce, nx = (np.array([r[k] for r in rows], dtype=int) for k in range(3))
+    a, b = np.abs(sig[ce] - sig[la]), np.abs(sig[ce] - sig[nx])
+    df['volt_rise'], df['volt_decay'] = (a, b) if c['peak'] else (b, a)
+    df['volt_amp'] = (a + b) / 2
+    df['period'] = nx - la
+    df = tablelayout.apply_layout(_labelled(df, c), c.get('cols'))
+    snap = sig.copy()
+    try:
+        res = compute_burst_features(df, sig)
+        mo = _column(res, 'monotonicity', len(rows))
+    except Exception as e:
+        return {'mo_err': exc_kind(e)}
+    out = {'mo': _f([float(x) for x in mo])}
+    # burst_method='amp' on the same table: burst_fraction[i] = mean of the detector's mask over last .. next (incl.)
+    fs, f_range = 1000.0, (100.0, 300.0)
+    cnt = _amp_count(c)
+    try:
+        with warnings.catch_warnings():
+            warnings.simplefilter('ignore')
+            mask = np.array(ref.ref_dualthresh(sig, fs, f_range, min_n_cycles=3 if cnt is None else int(cnt)), dtype=float)
+        if np.isnan(mask).any() or len(mask) != len(sig):
+            raise ValueError('reference unusable')
+    except Exception:
+        out['amp'] = 'reference detector rejects the signal'
+    else:
+        bk = {'fs': fs, 'f_range': f_range}
+        if cnt is not None:
+            bk['min_n_cycles'] = cnt
+        bk0 = dict(bk)
+        try:
+            with warnings.catch_warnings():
+                warnings.simplefilter('ignore')
+                res = compute_burst_features(df, sig, burst_method='amp', burst_kwargs=bk)
+            bf = _column(res, 'burst_fraction', len(rows))
+            want = np.array([mask[r[0]:r[2] + 1].mean() for r in rows])
+            bad = [i for i in range(len(rows)) if not pipeline.close(float(bf[i]), float(want[i]))]
+            out['amp'] = 'compared'
+            if bad:
+                out['harness_diff'] = 'burst_fraction[%d] = %r, the reference detector gives %r' % (bad[0], float(bf[bad[0]]), float(want[bad[0]]))
+            elif list(bk.items()) != list(bk0.items()):
+                out['harness_diff'] = 'burst_kwargs changed by compute_burst_features'
+        except Exception as e:
+            out['amp'] = 'raised'
+            out['harness_diff'] = 'compute_burst_features(burst_method="amp") raised %s where the reference detector works' % exc_kind(e)
+    out['sig_unchanged'] = bool(np.array_equal(sig, snap))
+    return out
+
+
 def _run_mono(c):
     import pandas as pd
     from bycycle.features.burst import compute_monotonicity
@@ -162,9 +292,9 @@ def _run_mono(c):
     df = pd.DataFrame({'sample_last_' + side: np.array([r[0] for r in rows], dtype=int),
                        'sample_' + centre: np.array([r[1] for r in rows], dtype=int),
                        'sample_next_' + side: np.array([r[2] for r in rows], dtype=int)})
-    if c.get('index') == 'offset':
-        df.index = np.arange(len(rows)) + 5
-    df = tablelayout.apply_layout(df, c.get('cols'))
+    if c.get('via') == 'cbf':
+        return _run_cbf_mono(c, df, sig, rows)
+    df = tablelayout.apply_layout(_labelled(df, c), c.get('cols'))
     snap = sig.copy()
     try:
         mo = np.asarray(compute_monotonicity(df, sig), dtype=float)
@@ -265,7 +395,21 @@ def nontrivial(c, o):
 
 
 def kind_of(c, o):
-    return c['kind'] + tablelayout.tag(c.get('cols')) if c['kind'].startswith('synthetic') else pipeline.kind_of(c, o)
+    if not c['kind'].startswith('synthetic'):
+        return pipeline.kind_of(c, o)
+    if o and o.get('amp'):
+        _AMP[o['amp']] = _AMP.get(o['amp'], 0) + 1
+    if c.get('rowlab'):
+        _AMP['tables_with_non_default_row_labels'] = _AMP.get('tables_with_non_default_row_labels', 0) + 1
+    return (c['kind'] + ('/via-compute_burst_features' if c.get('via') else '') + tablelayout.rows_tag(c.get('rowlab'))
+            + tablelayout.tag(c.get('cols')))
+
+
+_AMP = {}
+
+
+def extra_evidence():
+    return {'compute_burst_features_on_hand_made_tables': dict(_AMP)}
 
 
 def _res(o, key):
@@ -282,9 +426,10 @@ def coq_case(c, o):
             return None          # the model has no error for a valid table; the oracle has already reported it
         inp = '(%s, %s, %s)' % (coqio.B(c['peak']), coqio.flist([float.fromhex(h) for h in c['sig']]),
                                 coqio.lst(['(%s, %s, %s)' % tuple(coqio.Z(x) + '%Z' for x in r) for r in c['rows']]))
-        return inp, coqio.flist(_uf(o['mo']))
+        # a harness-level difference is sent as a result no model result equals (one value too many)
+        return inp, coqio.flist(_uf(o['mo']) + ([2.0] if o.get('harness_diff') else []))
     if 'af_err' in o:
         return None
     inp = '(%s, %s, %s, %s, %s, %s)' % (coqio.B(c['peak']), DIRS[c['direction']], coqio.flist(_uf(c['rises'])),
                                         coqio.flist(_uf(c['decays'])), coqio.zlist(c['periods']), coqio.flist(_uf(c['amps'])))
-    return inp, '(%s, %s, %s)' % (coqio.flist(_uf(o['af'])), _res(o, 'ac'), _res(o, 'pc'))
+    return inp, '(%s, %s, %s)' % (coqio.flist(_uf(o['af']) + ([2.0] if o.get('harness_diff') else [])), _res(o, 'ac'), _res(o, 'pc'))
